@@ -1,33 +1,32 @@
-"""C12 — DHT network: announced blobs are findable until expiry and lookups terminate (function-level part).
+"""C12 — DHT network: announced blobs are findable until expiry and lookups terminate.  FUNCTION-LEVEL part only: the
+network-wide clauses (hit guarantee, termination) are NOT decided (see NOT_DECIDED).
 
-Decided deductively (real code symbolically executed, every path, oracle from the statement / protocol definition):
-  * expiry  — `DictDataStore.filter_expired_peers / get_peers_for_blob / removed_expired_peers / add_peer_to_blob` against
-    a fake loop with a symbolic clock and stores with arbitrary history (0..3 earlier announcements with symbolic time
-    stamps, symbolic good/unknown/bad verdicts, an earlier announcement of the same peer at any position): an
-    announcement is returned iff it is younger than 86400 s, cleanup never changes what a lookup returns, a
-    re-announcement restarts the 24 hours;
-  * store   — `KademliaRPC.store / make_token / verify_token / refresh_token` followed by `find_value` of another node:
-    a store carrying the token this node issued is kept under the sender's address and served until expiry; a store
-    with a foreign token is refused once the secret has been rotated and the start-up window is over;
-  * paging  — the statement's lemma "when more peers hold a blob than fit one reply, paging returns all of them" for a
-    SYMBOLIC number n <= 100 of announcers, with the real client (`IterativeValueFinder.send_probe`, `_send_probe`,
-    `_handle_probe_result`, `check_result_ready`, `FindValueResponse`).  The engine cannot run the server's list
-    comprehension over a list of symbolic length (gap, /tmp/engine_gaps/C12_1.py), therefore the call to
-    `KademliaRPC.find_value` is treated MODULARLY when n is symbolic: it is replaced by its contract
-    `find_value_contract` (page count, page sizes, pages = consecutive slices of one arrangement), and that contract is
-    proved against the real `find_value` for fixed n (every integer page) and checked at run time for every n in
-    0..100.  With concrete n (native replay of solver models, bounded cases) the real `find_value` runs.
-    KNOWN DEFECT F9: the lemma is refuted (solver: n = 89, 97, 98 within the statement's bound); recorded in
-    known_findings.d/C12.json with the predicate `f9(n)`; `paging.outside-F9` proves the lemma for every other n;
-  * output validity — `IterativeNodeFinder.put_result / search_exhausted / check_result_ready / _add_active` yield only
-    peers whose verdict is True and never the searching node; with the real `PeerManager` and an arbitrary history of
-    failure / reply / request events a True verdict implies a recorded reply;
-    `decode_tcp_peer_from_compact_address` accepts only public IPv4 (fixed list of addresses), ports 1024..65535 (all),
-    48-byte ids (all lengths);
-  * search bookkeeping — `_search_round` never probes the searching node, a contacted peer, or more than ALPHA peers at
-    once and reports exhaustion exactly when nothing is in flight and nothing could be scheduled.
-Bounded stand-ins (labelled, never counted as proved): every n in 0..100 end to end on the real server and client,
-public/reserved IPv4 ranges, hostile findValue replies, and a small simulated network (hit guarantee and expiry).
+Decided deductively (real code, every path; oracle from the statement):
+  * expiry — `DictDataStore.filter_expired_peers / get_peers_for_blob / removed_expired_peers / add_peer_to_blob`, symbolic
+    clock, stores with arbitrary history (0..2 earlier announcements, 3 in the thorough tier, symbolic time stamps and
+    verdicts, an earlier announcement of the same peer at any position): an announcement is returned iff younger than
+    86400 s, cleanup never changes a lookup, a re-announcement restarts the 24 hours;
+  * store — `KademliaRPC.store / make_token / verify_token / refresh_token`, then `find_value` by another node: a store
+    with a token this node issued is kept under the sender's address and served until expiry; a foreign token is refused
+    once the secret was rotated and the start-up window is over;
+  * paging — the statement's lemma "when more peers hold a blob than fit one reply, paging returns all of them" for a
+    SYMBOLIC number n <= 100 of announcers with the real client (`IterativeValueFinder.send_probe / check_result_ready`).  The server's list comprehension over a
+    symbolic-length list is outside the engine, so for symbolic n the call to
+    `KademliaRPC.find_value` is MODULAR: replaced by its contract `find_value_contract` (page count, page sizes, pages =
+    slices of one arrangement), which is proved against the real function for fixed n (every integer page) and checked at
+    run time for every n in 0..100.  With concrete n (replay of solver models, bounded cases) the real function runs.
+    KNOWN DEFECT F9: the lemma is refuted (solver: n = 89, 97; also 98); recorded in known_findings.d/C12.json with the
+    predicate `f9(n)`; `paging.outside-F9` (requires `not f9(n)`) proves it for every other n: other defects still alarm;
+  * output validity — `IterativeNodeFinder.put_result / search_exhausted / check_result_ready`, `_add_active` yield only
+    peers whose verdict is True, never the searching node; with the real `PeerManager` and an arbitrary history of
+    failure / reply / request events a contact is yielded only if it replied;
+    `decode_tcp_peer_from_compact_address` accepts only public IPv4 (44 fixed addresses), ports 1024..65535, 48-byte ids;
+  * `_search_round` never probes the searching node, a contacted peer, or more than ALPHA peers at once, and reports
+    exhaustion exactly when nothing is in flight and nothing was scheduled;
+  * blob announcer — `BlobAnnouncer._run_consumer`: every queued blob is attempted once, recorded as announced only if stored.
+Bounded stand-ins (not proofs): paging lemma and find_value contract for every n in 0..100 on the real
+server, data store and client; IPv4 ranges; 25 hostile findValue replies; 8 simulated networks of real Nodes (hit
+guarantee, storage on close nodes, expiry).
 """
 import asyncio as _asyncio
 import functools as _functools
@@ -38,7 +37,7 @@ from pyvc.api import *
 from pyvc.values import *   # noqa
 from pyvc.ops import unlift
 from pyvc.sources import SOURCES
-from pyvc.speclib import implies, forall
+from pyvc.speclib import implies
 from lbry.dht import constants
 from lbry.dht.peer import KademliaPeer, make_kademlia_peer, PeerManager, decode_tcp_peer_from_compact_address
 from lbry.dht.protocol.data_store import DictDataStore
@@ -47,9 +46,8 @@ from lbry.dht.protocol.iterative_find import IterativeValueFinder, IterativeNode
 from lbry.dht.serialization.datagram import PAGE_KEY, make_compact_address
 
 DAY = 86400                     # the statement's 24 hours
-K = 8                           # peers per reply (Kademlia k); the statement's "fit one reply"
-ALPHA = 5
-assert constants.K == K and constants.DATA_EXPIRATION == DAY and constants.ALPHA == ALPHA
+K = 8                           # peers per reply (Kademlia k): the statement's "fit one reply"
+ALPHA = 5                       # probes in flight (Kademlia alpha)
 KEY = bytes(range(48))
 KEY2 = bytes(range(1, 49))
 TRI = TOneOf(TNone(), TConst(True), TConst(False))      # verdict of a peer manager: unknown / good / bad
@@ -128,10 +126,8 @@ def _m_shuffle(interp, st, args, kwargs):
     h = st.heap[lst.addr]
     if not isinstance(h, HList) or h.items is None:
         raise Unsupported("shuffle of a symbolic-length list")
-    twin = _random.Random()
-    twin.setstate(rng.obj.getstate())
     perm = list(range(len(h.items)))
-    twin.shuffle(perm)
+    rng.obj.shuffle(perm)                                   # CPython's generator (its state advances as it would natively)
     h.items = [h.items[i] for i in perm]
     yield st, VNone
 
@@ -268,7 +264,7 @@ def make_lookup_proof(n):
                 ensures_listed_iff_younger_than_a_day=_sig(ensures_listed_iff_younger_than_a_day, types, True),
                 ensures_lookup_returns_young_announcers=_sig(ensures_lookup_returns_young_announcers, types, True),
                 ensures_nothing_else=staticmethod(ensures_nothing_else),
-                samples=staticmethod(lambda: _time_grid(n)),
+                samples=staticmethod(lambda: _time_grid(n)), thorough_only=(n >= 3),
                 note="ages 0, 1, 86399, 86400, 86401, 172800 s x verdicts good/unknown/bad for every stored announcement",
                 __doc__=f"lookup in a store holding {n} announcement(s) of the blob with arbitrary time stamps and verdicts (plus "
                         f"one of another blob): returned iff younger than 86400 s (and not known bad), nothing else is returned")
@@ -280,7 +276,7 @@ for _n in (0, 1, 2, 3):
 
 
 def make_cleanup_proof(n):
-    types = dict(now=TInt(0, 2 ** 40), other_ts=TInt(0, 2 ** 40))
+    types = dict(now=TInt(0, 2 ** 40), other_ts=TInt(0, 2 ** 40) if n == 1 else TInt(0, 0))       # TInt(0, 0): the other blob expired
     for i in range(n):
         types[f"ts{i}"] = TInt(0, 2 ** 40)
         types[f"good{i}"] = TRI
@@ -313,7 +309,7 @@ def make_cleanup_proof(n):
 
     def samples():
         for d in _time_grid(n):
-            for other in (0, DAY - 1, DAY + 1):
+            for other in ((0, DAY - 1, DAY + 1) if n == 1 else (d['now'],)):
                 yield dict(d, other_ts=d['now'] - other)
 
     body = dict(inputs=types, run=_sig(run, types, False),
@@ -484,7 +480,8 @@ class StoreToken:
     run = store_harness
 
     def ensures_own_token_is_accepted(which, port, rotated, result):
-        # hit guarantee at one node: an honest announcement (token issued by this node, usable TCP port) is never refused
+        # hit guarantee at one node: an honest announcement (token issued by this node, TCP port that clients accept) is never
+        # refused.  Port 65535 is left out: the code refuses it on both sides (remark R3 in NOT_DECIDED, DESIGN.md section 5)
         return implies(which <= 1 and 1024 <= port < 65535, result[0] == b'OK')
 
     def ensures_foreign_token_refused_after_rotation(now, started, rotated, result):
@@ -519,6 +516,1104 @@ class StoreToken:
                        earlier_ts=earlier)
 
 
-TRUSTED = []
-NOT_DECIDED = []
-ASSUMPTIONS = []
+# ================================================================================ 3. findValue paging
+
+N_MAX = 100                                                     # the statement: up to 100 announcers
+PEERS = [mk_peer(i) for i in range(N_MAX + 20)]
+ADDRS = [bytes(make_compact_address(id_of(i), ip_of(i), 3000 + i)) for i in range(N_MAX + 20)]
+SERVER_PEER = make_kademlia_peer(SERVER_ID, '9.9.9.9', 4444)
+CLIENT_ID = b'\x66' * 48
+OUTSIDER = make_kademlia_peer(CLIENT_ID, '7.7.7.7', 4445)       # the looking-up node: not an announcer, no TCP port known
+
+
+def f9(n):
+    """KNOWN DEFECT F9 (DESIGN.md section 5): numbers of announcers for which the page count announced by the server
+    (n // (K+1) + 1) makes the client stop before it has asked for every page: (n // 9 + 2) * 8 < n"""
+    return (n // (K + 1) + 2) * K < n
+
+
+def announced_pages(n):
+    """CONTRACT of KademliaRPC.find_value, part 1: the page-count field for n servable peers (helper contract taken from the
+    code and PROVED against it by find_value.contract[*]; the statement does not fix this number)"""
+    return n // (K + 1) + 1 if n > 0 else 0
+
+
+def page_len(n, page):
+    """CONTRACT part 2: number of peers in page `page` (pages hold K peers, the last one the remainder; negative = page 0)"""
+    page = page if page > 0 else 0
+    left = n - page * K
+    return K if left >= K else (left if left > 0 else 0)
+
+
+def find_value_contract(n, key, page):
+    """CONTRACT part 3, as a response object: pages are consecutive K-slices of ONE arrangement of the n stored compact
+    addresses (the real server uses a shuffle seeded with its node id; the arrangement used here is the stored order).
+    `page` is concrete, n may be symbolic (one fork per page size)."""
+    page = page if page > 0 else 0
+    response = {b'token': b'\x00' * 48, b'protocolVersion': 1, PAGE_KEY: announced_pages(n)}
+    if page == 0:
+        response[b'contacts'] = []
+    left = n - page * K
+    if left >= K:
+        count = K
+    elif left <= 0:
+        count = 0
+    elif left == 1:
+        count = 1
+    elif left == 2:
+        count = 2
+    elif left == 3:
+        count = 3
+    elif left == 4:
+        count = 4
+    elif left == 5:
+        count = 5
+    elif left == 6:
+        count = 6
+    else:
+        count = 7
+    if count > 0:
+        response[key] = ADDRS[page * K:page * K + count]
+    return response
+
+
+class AnnouncedTo:
+    """data store of a node to which the first n of PEERS announced KEY (all fresh, none known bad)"""
+
+    def __init__(self, n):
+        self.n = n
+        self.completed_blobs = set()
+
+    def get_peers_for_blob(self, key):
+        return [PEERS[i] for i in range(self.n)] if key == KEY else []
+
+
+def _announced_count(st, rpc):
+    """engine side: the `n` of the AnnouncedTo store behind a KademliaRPC object, or None"""
+    try:
+        proto = st.heap[rpc.addr].fields['protocol']
+        ds = st.heap[proto.addr].fields['data_store']
+        h = st.heap[ds.addr]
+        return h.fields['n'] if h.cls is AnnouncedTo else None
+    except (AttributeError, KeyError):
+        return None
+
+
+@model_for(KademliaRPC.find_value)
+def _m_find_value(interp, st, args, kwargs):
+    """MODULAR STEP (symbolic side only).  The real function is executed whenever the number of stored peers is concrete;
+    for a symbolic n (the engine cannot run the list comprehension over a symbolic-length list) the call is replaced by
+    `find_value_contract`, which is proved against the real function by find_value.contract[*]."""
+    n = _announced_count(st, args[0])
+    if n is None or n.concrete:
+        fn = KademliaRPC.find_value
+        yield from interp.call_ast(st, SOURCES.node_of(fn), fn.__globals__, [], [lift(d) for d in fn.__defaults__], {},
+                                   fn.__qualname__, fn.__code__.co_filename, args, kwargs)
+        return
+    if getattr(args[1], 'obj', None) is not OUTSIDER:
+        raise Unsupported("find_value contract is stated for a requester that is not one of the announcers")
+    page = args[3] if len(args) > 3 else kwargs.get('page', VInt(0))
+    if not page.concrete:
+        raise Unsupported("find_value contract with symbolic n needs a concrete page")
+    interp.assumptions.add("KademliaRPC.find_value with a symbolic number of stored peers is replaced by find_value_contract "
+                           "(proved for fixed n by C12/find_value.contract[*], run-time checked for every n <= 100)")
+    yield from interp.call(st, lift(find_value_contract), [n, args[2], page], {})
+
+
+class ServerStub:
+    """what get_rpc_peer(peer) returns on the client: forwards findValue to the remote node's KademliaRPC (loss-free wire)"""
+
+    def __init__(self, rpc, asker):
+        self.rpc = rpc
+        self.asker = asker
+        self.requested = []
+
+    async def find_value(self, key, page=0):
+        self.requested.append(page)
+        response = self.rpc.find_value(self.asker, key, page)
+        if key in response:
+            response[key] = [bytes(a) for a in response[key]]       # the wire (bencode/bdecode, property C17) delivers bytes
+        return response
+
+
+class ClientProtocol:
+    """what the finders read from their protocol object"""
+
+    def __init__(self, loop, peer_manager, node_id, stub):
+        self.loop = loop
+        self.peer_manager = peer_manager
+        self.node_id = node_id
+        self.external_ip = '7.7.7.7'
+        self.udp_port = 4445
+        self.stub = stub
+        self.data_store = None
+
+    def get_rpc_peer(self, peer):
+        return self.stub
+
+
+async def drive_value_lookup(stub, max_probes):
+    """the part of an iterative value lookup that concerns ONE storing node: probe it (real _send_probe, which feeds the real
+    send_probe / _handle_probe_result / check_result_ready) as long as the finder puts it back among the peers to contact,
+    exactly as _search_round / _schedule_probe do; returns what the finder yields"""
+    loop = Clock(1000)
+    finder = IterativeValueFinder(loop, ClientProtocol(loop, Verdicts([None] * 500), CLIENT_ID, stub), KEY, -1, [])
+    probes = 0
+    while SERVER_PEER not in finder.contacted and probes < max_probes:
+        finder.contacted.add(SERVER_PEER)                       # IterativeFinder._schedule_probe
+        await finder._send_probe(SERVER_PEER)
+        probes += 1
+    got = []
+    while not finder.iteration_queue.empty():
+        batch = finder.iteration_queue.get_nowait()
+        for p in batch:
+            got.append(p.tcp_port - 3000)
+    return got, stub.requested, probes
+
+
+async def paging_harness(n):
+    loop = Clock(1000)
+    server = KademliaRPC(ServerProtocol(loop, Verdicts([None] * 500), SERVER_ID, AnnouncedTo(n)), loop, 3333)
+    return await drive_value_lookup(ServerStub(server, OUTSIDER), 40)
+
+
+def all_announcers_delivered(n, result):
+    # the statement: "when more peers hold a blob than fit one reply, paging returns all of them" — each exactly once
+    got = result[0]
+    return len(got) == n and sorted(got) == list(range(len(got)))
+
+
+def paging_is_bounded(n, result):
+    # the lookup stops asking this node: never more requests than pages that can hold n peers, plus one empty page
+    return result[2] == len(result[1]) and len(result[1]) * K <= n + 2 * K
+
+
+@proof("C12", "paging")
+class Paging:
+    """THE PAGING LEMMA OF THE STATEMENT for a symbolic number n <= 100 of announcers stored on one node: the peers yielded
+    by the real value finder while paging through that node are exactly the n announcers.  EXPECTED REFUTED on the
+    unchanged tree (known finding F9, predicate f9(n)): the solver finds n in {89, 97, 98}, the model is replayed with the
+    real KademliaRPC.find_value (concrete n) and reported as KNOWN-FINDING."""
+    inputs = dict(n=TInt(0, N_MAX))
+    note = "n = 0, 1, 7, 8, 9, 16, 17, 72, 80, 81, 88, 89, 90, 96, 97, 98, 99, 100 with the real find_value"
+    run = paging_harness
+    ensures_all_announcers_delivered = all_announcers_delivered
+    ensures_paging_is_bounded = paging_is_bounded
+
+    def samples():
+        for n in (0, 1, 7, 8, 9, 16, 17, 72, 80, 81, 88, 89, 90, 96, 97, 98, 99, 100):
+            yield dict(n=n)
+
+
+@proof("C12", "paging.outside-F9")
+class PagingOutsideF9:
+    """the same lemma with the known finding excluded from the precondition (`not f9(n)`): proves that F9's predicate
+    describes ALL failing n <= 100, so that any other paging defect still alarms"""
+    inputs = dict(n=TInt(0, N_MAX))
+
+    def requires(n):
+        return not f9(n)
+
+    run = paging_harness
+    ensures_all_announcers_delivered = all_announcers_delivered
+    ensures_paging_is_bounded = paging_is_bounded
+
+
+async def real_paging_harness(n):
+    """everything real: DictDataStore filled by add_peer_to_blob, KademliaRPC.find_value, IterativeValueFinder"""
+    loop = Clock(1000)
+    pm = Verdicts([None] * 500)
+    store = DictDataStore(loop, pm)
+    for i in range(n):
+        store.add_peer_to_blob(PEERS[i], KEY)
+    server = KademliaRPC(ServerProtocol(loop, pm, SERVER_ID, store), loop, 3333)
+    return await drive_value_lookup(ServerStub(server, OUTSIDER), 40)
+
+
+@proof("C12", "paging.every-n")
+class PagingEveryN:
+    """BOUNDED stand-in (run-time contract check on the real server, real data store and real client; no deductive part):
+    the paging lemma for EVERY n in 0..100 (the statement's bound on announcers).  n = 89, 97, 98 fail (known finding F9)."""
+    bounded_only = True
+    note = "every n in 0..100 (the whole range of the statement), stored through add_peer_to_blob, served by the real find_value"
+    inputs = dict(n=TInt(0, N_MAX))
+    run = real_paging_harness
+    ensures_all_announcers_delivered = all_announcers_delivered
+    ensures_paging_is_bounded = paging_is_bounded
+
+    def samples():
+        for n in range(0, N_MAX + 1):
+            yield dict(n=n)
+
+
+def contract_harness(n, page, asker):
+    """asker 0: a node that is not an announcer and whose TCP port is unknown; 1: not an announcer, TCP port known;
+    2: announcer number 0 itself (the server knows its TCP port from the store) — it is served the OTHER announcers"""
+    loop = Clock(1000)
+    server = KademliaRPC(ServerProtocol(loop, Verdicts([None] * 500), SERVER_ID, AnnouncedTo(n)), loop, 3333)
+    contact = OUTSIDER if asker == 0 else (ASKER if asker == 1 else PEERS[0])
+    response = server.find_value(contact, KEY, page)
+    everything = []                                             # the whole sequence of pages, to compare the arrangement
+    for p in range(n // K + 2):
+        everything = everything + [bytes(a) for a in server.find_value(contact, KEY, p).get(KEY, [])]
+    return response[PAGE_KEY], response.get(KEY, []), KEY in response, everything, b'contacts' in response, len(response[b'token'])
+
+
+def servable(n, asker):
+    """number of announcers the reply may contain: all n, minus the requester if it is one of them"""
+    return n - 1 if asker == 2 and n > 0 else n
+
+
+def contract_page_count(n, asker, result):
+    return result[0] == announced_pages(servable(n, asker))
+
+
+def contract_page_size(n, page, asker, result):
+    m = servable(n, asker)
+    return len(result[1]) == page_len(m, page) and result[2] == (page_len(m, page) > 0)
+
+
+def contract_arrangement(n, page, asker, result):
+    everything = result[3]
+    p = page if page > 0 else 0
+    expected = ADDRS[1:n] if asker == 2 else ADDRS[:n]
+    if len(expected) == 0:
+        return everything == [] and len(result[1]) == 0
+    return (sorted(everything) == sorted(expected)
+            and implies(p <= n // K + 1, result[1] == everything[p * K:p * K + K]))
+
+
+def contract_first_page(page, result):
+    return result[4] == (page <= 0) and result[5] == 48
+
+
+def make_contract_proof(n):
+    def samples():
+        for page in range(-2, n // K + 4):
+            for asker in (0, 1, 2):
+                yield dict(page=page, asker=asker)
+
+    body = dict(inputs=dict(page=TInt(), asker=TInt(0, 2)),
+                run=staticmethod(lambda page, asker: contract_harness(n, page, asker)),
+                ensures_page_count_as_contract=staticmethod(lambda asker, result: contract_page_count(n, asker, result)),
+                ensures_page_size_as_contract=staticmethod(lambda page, asker, result: contract_page_size(n, page, asker, result)),
+                ensures_pages_are_slices_of_one_arrangement_of_the_announcers=staticmethod(
+                    lambda page, asker, result: contract_arrangement(n, page, asker, result)),
+                ensures_first_page_carries_contacts_and_token=staticmethod(contract_first_page),
+                samples=staticmethod(samples), thorough_only=(n > 20),
+                note=f"pages -2..{n // K + 3}, requester: outsider without / with a known TCP port, or one of the announcers",
+                __doc__=f"the real KademliaRPC.find_value on a node storing {n} announcers satisfies find_value_contract for EVERY "
+                        f"integer page: page-count field, page size, pages are consecutive slices of one fixed arrangement of "
+                        f"exactly the stored announcers — all of them for a requester that is not an announcer, all others for a "
+                        f"requester that is (justifies the modular step of C12/paging for n = {n})")
+    proof("C12", f"find_value.contract[{n}]")(type('FindValueContract', (), body))
+
+
+for _n in (0, 1, 7, 8, 9, 18, 27, 89):
+    make_contract_proof(_n)
+
+
+@proof("C12", "find_value.contract.every-n")
+class ContractEveryN:
+    """BOUNDED stand-in for the link between find_value_contract and the real find_value for ALL n (the deductive
+    find_value.contract[n] proofs cover fixed n only; engine gap /tmp/engine_gaps/C12_1.py): run-time check of the same four
+    clauses on the real function"""
+    bounded_only = True
+    note = "every n in 0..100 x pages -1, 0, 1 and the last four x the three kinds of requester in turn"
+    inputs = dict(n=TInt(0, N_MAX), page=TInt(), asker=TInt(0, 2))
+    run = contract_harness
+    ensures_page_count_as_contract = contract_page_count
+    ensures_page_size_as_contract = contract_page_size
+    ensures_pages_are_slices_of_one_arrangement_of_the_announcers = contract_arrangement
+    ensures_first_page_carries_contacts_and_token = contract_first_page
+
+    def samples():
+        for n in range(0, N_MAX + 1):
+            for page in sorted({-1, 0, 1, n // K - 1, n // K, n // K + 1, n // K + 2}):
+                yield dict(n=n, page=page, asker=(n + page) % 3)
+
+
+# ================================================================================ 4. output validity of node lookups
+
+OWN_ID = CLIENT_ID
+NODES = [make_kademlia_peer(bytes([0x10 * (i + 1)]) * 48, '8.8.4.%d' % (i + 1), 4000 + i) for i in range(8)]
+SELF_ELSEWHERE = make_kademlia_peer(OWN_ID, '8.8.4.100', 4008)           # a contact that claims the searching node's own id
+OWN_ADDRESS = make_kademlia_peer(b'\x99' * 48, '7.7.7.7', 4445)          # a contact at the searching node's own address (index 445)
+
+
+def drain(queue):
+    out = []
+    while not queue.empty():
+        batch = queue.get_nowait()
+        out.append(None if batch is None else [p.udp_port - 4000 for p in batch])
+    return out
+
+
+def node_finder(loop, pm, shortlist):
+    return IterativeNodeFinder(loop, ClientProtocol(loop, pm, OWN_ID, None), KEY, K, shortlist)
+
+
+@proof("C12", "node-finder.yield")
+class NodeFinderYield:
+    """whatever way a node lookup produces results (put_result on an arbitrary candidate list, search_exhausted, a
+    findNode reply that contains the key), with arbitrary verdicts of the peer manager and an arbitrary earlier yield:
+    every yielded contact has verdict True (= it answered, see node-finder.replied-only), is not the searching node itself,
+    and is yielded at most once; the end marker is queued exactly when the search finishes"""
+    inputs = dict(v0=TRI, v1=TRI, v2=TOneOf(TConst(True), TConst(False)), yielded0=TBool(), how=TInt(0, 3))
+    note = "18 verdict combinations x 4 ways of producing results x earlier yield or not"
+
+    def run(v0, v1, v2, yielded0, how):
+        loop = Clock(0)
+        pm = Verdicts([v0, v1, v2, None, None, None, None, None, True])         # index 8: the contact claiming our own id is "good"
+        finder = node_finder(loop, pm, [NODES[0], NODES[1], NODES[2], SELF_ELSEWHERE])
+        if yielded0:
+            finder.yielded_peers.add(NODES[0])
+        if how == 0:
+            finder.put_result([NODES[2], SELF_ELSEWHERE, NODES[0], NODES[1]], False)
+        elif how == 1:
+            finder.put_result([SELF_ELSEWHERE, NODES[1], NODES[0], NODES[2]], True)
+        elif how == 2:
+            finder.search_exhausted()
+        else:
+            finder.check_result_ready(FindNodeResponse(KEY, [(KEY, '8.8.4.77', 4077), (OWN_ID, '8.8.4.100', 4008)]))
+        return drain(finder.iteration_queue), [p.udp_port - 4000 for p in finder.active.keys()]
+
+    def ensures_only_contacts_that_answered_and_never_self(v0, v1, v2, yielded0, result):
+        verdicts = [v0, v1, v2]
+        seen = [0] if yielded0 else []
+        ok = True
+        for batch in result[0]:
+            if batch is not None:
+                for i in batch:
+                    ok = ok and 0 <= i <= 2 and verdicts[i] is True and i not in seen
+                    seen = seen + [i]
+        return ok
+
+    def ensures_every_new_good_contact_is_yielded(v0, v1, v2, yielded0, result):
+        verdicts = [v0, v1, v2]
+        got = []
+        for batch in result[0]:
+            if batch is not None:
+                got = got + batch
+        ok = True
+        for i in range(3):
+            ok = ok and implies(verdicts[i] is True and not (i == 0 and yielded0), i in got)
+        return ok
+
+    def ensures_end_marker_iff_finished(how, result):
+        ends = [b for b in result[0] if b is None]
+        return len(ends) == (0 if how == 0 else 1) and (how == 0 or result[0][-1] is None)
+
+    def ensures_self_never_becomes_active(result):
+        return 8 not in result[1]
+
+    def samples():
+        import itertools
+        for v0, v1, v2, y, how in itertools.product((None, True, False), (None, True, False), (True, False), (False, True), range(4)):
+            yield dict(v0=v0, v1=v1, v2=v2, yielded0=y, how=how)
+
+
+class TickClock:
+    """fake event loop whose clock is a float with 1/1024 s resolution (exactly representable; loop.time() is a float)"""
+
+    def __init__(self, ticks):
+        self.ticks = ticks
+
+    def time(self):
+        return self.ticks / 1024.0
+
+
+NOW_TICKS = 1024 * 10 ** 6
+
+
+def record(pm, kind, address, port):
+    if kind == 1:
+        pm.report_failure(address, port)
+    elif kind == 2:
+        pm.report_last_replied(address, port)
+    elif kind == 3:
+        pm.report_last_requested(address, port)
+
+
+@proof("C12", "node-finder.replied-only")
+class RepliedOnly:
+    """the statement's "yields only contacts that actually replied" with the REAL PeerManager: after an arbitrary history of
+    three events concerning a contact (nothing / RPC failure / reply; from the second event on also: incoming request; at
+    arbitrary times), put_result yields the contact only if one of the events was a reply from it; a contact never heard from and a
+    contact with only failures are never yielded"""
+    inputs = dict(k1=TInt(0, 2), k2=TInt(0, 3), k3=TInt(0, 3), t1=TInt(0, NOW_TICKS), t2=TInt(0, NOW_TICKS), t3=TInt(0, NOW_TICKS))
+    note = "all 48 event sequences x event ages 0 s, 1 s, 719 s, 720 s, 721 s, 2 h"
+
+    def requires(t1, t2, t3):
+        return t1 <= t2 <= t3
+
+    def run(k1, k2, k3, t1, t2, t3):
+        loop = TickClock(t1)
+        pm = PeerManager(loop)
+        record(pm, k1, '8.8.4.1', 4000)
+        record(pm, 1, '8.8.4.3', 4002)                      # contact 2 only ever failed
+        loop.ticks = t2
+        record(pm, k2, '8.8.4.1', 4000)
+        record(pm, 1, '8.8.4.3', 4002)
+        loop.ticks = t3
+        record(pm, k3, '8.8.4.1', 4000)
+        loop.ticks = NOW_TICKS
+        finder = node_finder(loop, pm, [NODES[0], NODES[1], NODES[2]])
+        finder.put_result([NODES[0], NODES[1], NODES[2]], True)
+        return drain(finder.iteration_queue), pm.peer_is_good(NODES[0])
+
+    def ensures_yielded_only_if_it_replied(k1, k2, k3, result):
+        got = []
+        for batch in result[0]:
+            if batch is not None:
+                got = got + batch
+        replied = k1 == 2 or k2 == 2 or k3 == 2
+        return implies(0 in got, replied) and 1 not in got and 2 not in got and implies(result[1] is True, replied)
+
+    def ensures_a_fresh_reply_counts(k1, k2, k3, t1, t2, t3, result):
+        # liveness side of the same clause (statement: hit guarantee needs answering contacts to be usable):
+        # the last event is a reply less than 720 s old  =>  the contact is good and is yielded
+        # (a failure recorded at the very same clock reading as the reply is not ordered, so it is excluded)
+        clean = (k1 != 1 or t1 < t3) and (k2 != 1 or t2 < t3)
+        return implies(k3 == 2 and clean and NOW_TICKS - t3 < 720 * 1024, result[1] is True and result[0][0] == [0])
+
+    def samples():
+        import itertools
+        ages = [0, 1, 719, 720, 721, 7200]
+        for k1, k2, k3 in itertools.product(range(3), range(4), range(4)):
+            for a3 in ages:
+                for gap in (0, 1, 720):
+                    t3 = NOW_TICKS - a3 * 1024
+                    yield dict(k1=k1, k2=k2, k3=k3, t1=t3 - 2 * gap * 1024, t2=t3 - gap * 1024, t3=t3)
+
+
+# ================================================================================ 5. search-round bookkeeping (supports termination)
+
+class FakeTask:
+    def __init__(self, what):
+        self.what = what
+        self.callbacks = []
+
+    def add_done_callback(self, cb):
+        self.callbacks.append(cb)
+
+    def cancel(self):
+        pass
+
+
+class TaskLoop:
+    """fake loop that records created tasks instead of running them"""
+
+    def __init__(self):
+        self.tasks = []
+
+    def time(self):
+        return 0
+
+    def create_task(self, what):
+        t = FakeTask(what)
+        self.tasks.append(t)
+        return t
+
+
+@proof("C12", "search-round.bookkeeping")
+class SearchRound:
+    """one _search_round of a lookup in an arbitrary state (which of the six known contacts were contacted before, how many
+    probes are in flight): it never probes the searching node (own id or own address), never probes a contact twice, never
+    has more than ALPHA probes in flight, marks what it probes as contacted, and reports exhaustion (end marker) exactly
+    when nothing is in flight and nothing could be scheduled — the facts termination of a lookup rests on (termination
+    itself is not decided)"""
+    inputs = dict(c0=TBool(), c1=TBool(), c2=TBool(), rest_contacted=TBool(), in_flight=TInt(0, 5))
+    note = "all 16 contacted-sets x 0..5 probes in flight"
+
+    def run(c0, c1, c2, rest_contacted, in_flight):
+        loop = TaskLoop()
+        pm = Verdicts([None] * 500)
+        finder = node_finder(loop, pm, NODES[:6])
+        finder.active[SELF_ELSEWHERE] = 1                       # even if the own id / own address had slipped into the shortlist
+        finder.active[OWN_ADDRESS] = 2
+        finder._send_probe = lambda peer: peer                  # probes are not executed here (covered by the paging / yield proofs)
+        finder.running = True
+        for flag, peer in ((c0, NODES[0]), (c1, NODES[1]), (c2, NODES[2])):
+            if flag:
+                finder.contacted.add(peer)
+        if rest_contacted:
+            for peer in NODES[3:6]:
+                finder.contacted.add(peer)
+        others = [make_kademlia_peer(bytes([0xA0 + j]) * 48, '8.8.5.%d' % (j + 1), 4100 + j) for j in range(5)]
+        for j in range(5):
+            if j < in_flight:
+                finder.contacted.add(others[j])
+                finder.running_probes[others[j]] = FakeTask(others[j])
+        before = [p.udp_port - 4000 for p in finder.contacted]
+        finder._search_round()
+        probed = [t.what.udp_port - 4000 for t in loop.tasks]
+        return probed, before, [p.udp_port - 4000 for p in finder.contacted], len(finder.running_probes), drain(finder.iteration_queue)
+
+    def ensures_never_probes_itself_or_twice(result):
+        probed, before = result[0], result[1]
+        ok = True
+        for i in probed:
+            ok = ok and 0 <= i <= 5 and i not in before and probed.count(i) == 1
+        return ok
+
+    def ensures_at_most_alpha_in_flight(in_flight, result):
+        return result[3] == in_flight + len(result[0]) and result[3] <= ALPHA
+
+    def ensures_probed_contacts_are_marked(result):
+        return sorted(result[2]) == sorted(result[1] + result[0])
+
+    def ensures_uses_free_slots(c0, c1, c2, rest_contacted, in_flight, result):
+        # progress: a free probe slot is not left unused while an uncontacted contact is known
+        fresh = (0 if c0 else 1) + (0 if c1 else 1) + (0 if c2 else 1) + (0 if rest_contacted else 3)
+        return len(result[0]) == min(fresh, ALPHA - in_flight)
+
+    def ensures_exhaustion_reported_iff_nothing_left(in_flight, result):
+        ended = len(result[4]) > 0 and result[4][-1] is None
+        return ended == (len(result[0]) == 0 and in_flight == 0)
+
+    def samples():
+        import itertools
+        for c0, c1, c2, rest, r in itertools.product((False, True), (False, True), (False, True), (False, True), range(6)):
+            yield dict(c0=c0, c1=c1, c2=c2, rest_contacted=rest, in_flight=r)
+
+
+# ================================================================================ 6. compact addresses of blob peers
+
+PUBLIC_IPS = ['8.8.8.8', '1.1.1.1', '9.255.255.255', '11.0.0.0', '100.63.255.255', '100.128.0.0', '126.255.255.255', '128.0.0.1',
+              '169.253.255.255', '169.255.0.0', '172.15.255.255', '172.32.0.0', '192.167.255.255', '192.169.0.0', '198.17.255.255',
+              '198.20.0.0', '203.0.112.255', '203.0.114.0', '223.255.255.255']
+NON_PUBLIC_IPS = ['0.0.0.0', '0.1.2.3', '10.0.0.0', '10.255.255.255', '100.64.0.0', '100.127.255.255', '127.0.0.1', '127.255.255.255',
+                  '169.254.0.0', '169.254.255.255', '172.16.0.0', '172.31.255.255', '192.0.2.1', '192.168.0.0', '192.168.255.255',
+                  '198.18.0.0', '198.19.255.255', '198.51.100.7', '203.0.113.0', '203.0.113.255', '224.0.0.0', '239.255.255.255',
+                  '240.0.0.0', '255.255.255.254', '255.255.255.255']
+
+
+def ip_bytes(ip):
+    return bytes(int(x) for x in ip.split('.'))
+
+
+def make_decode_proof(ip, public):
+    packed = ip_bytes(ip)
+
+    def run(port, node_id):
+        peer = decode_tcp_peer_from_compact_address(packed + port.to_bytes(2, 'big') + node_id)
+        return peer.address, peer.tcp_port, peer.node_id, peer.udp_port
+
+    def ensures_only_well_formed_public_addresses(port, node_id, result):
+        # the statement: value lookups yield only well-formed public peer addresses (public IPv4, port 1024..65535, 48-byte id)
+        return (public and 1024 <= port <= 65535 and len(node_id) == 48
+                and result[0] == ip and result[1] == port and result[2] == node_id and result[3] is None)
+
+    def samples():
+        for port in (0, 1, 1023, 1024, 3333, 65535):
+            for ln in (0, 47, 48, 49):
+                yield dict(port=port, node_id=bytes([7]) * ln)
+
+    body = dict(inputs=dict(port=TInt(0, 65535), node_id=TBytes(maxlen=64)), run=staticmethod(run),
+                ensures_only_well_formed_public_addresses=staticmethod(ensures_only_well_formed_public_addresses),
+                raises={ValueError: (lambda port, node_id: not (public and 1024 <= port <= 65535 and len(node_id) == 48))},
+                samples=staticmethod(samples), note="ports 0, 1, 1023, 1024, 3333, 65535 x id lengths 0, 47, 48, 49",
+                __doc__=f"decode_tcp_peer_from_compact_address on {ip} + any 2-byte port + any id of up to 64 bytes: "
+                        f"{'accepted iff port >= 1024 and the id has 48 bytes, fields decoded exactly' if public else 'always refused'}"
+                        f" (ValueError, the only exception the value finder treats as a misbehaving peer)")
+    proof("C12", f"compact-address.decode[{ip}]")(type('Decode', (), body))
+
+
+for _ip in PUBLIC_IPS:
+    make_decode_proof(_ip, True)
+for _ip in NON_PUBLIC_IPS:
+    make_decode_proof(_ip, False)
+
+
+# reserved IPv4 blocks (IANA special-purpose registry, RFC 6890: not globally routable unicast) — the oracle for "public"
+RESERVED_BLOCKS = [('0.0.0.0', 8), ('10.0.0.0', 8), ('100.64.0.0', 10), ('127.0.0.0', 8), ('169.254.0.0', 16), ('172.16.0.0', 12),
+                   ('192.0.2.0', 24), ('192.168.0.0', 16), ('198.18.0.0', 15), ('198.51.100.0', 24), ('203.0.113.0', 24),
+                   ('224.0.0.0', 4), ('240.0.0.0', 4)]
+# blocks whose status differs between registry versions / library versions: no verdict demanded
+UNSETTLED_BLOCKS = [('192.0.0.0', 24), ('192.88.99.0', 24), ('192.31.196.0', 24), ('192.52.193.0', 24), ('192.175.48.0', 24)]
+
+
+def ip_int(ip):
+    a, b, c, d = [int(x) for x in ip.split('.')]
+    return (a << 24) | (b << 16) | (c << 8) | d
+
+
+def in_blocks(value, blocks):
+    for base, bits in blocks:
+        if value >> (32 - bits) == ip_int(base) >> (32 - bits):
+            return True
+    return False
+
+
+def spec_is_public(ip):
+    return not in_blocks(ip_int(ip), RESERVED_BLOCKS)
+
+
+def _sweep_ips():
+    out = []
+    for base, bits in RESERVED_BLOCKS + UNSETTLED_BLOCKS:
+        first = ip_int(base)
+        last = first + (1 << (32 - bits)) - 1
+        for v in (first - 1, first, first + 1, (first + last) // 2, last - 1, last, last + 1):
+            if 0 <= v < 2 ** 32:
+                out.append(v)
+    rnd = _random.Random(12)
+    for _ in range(1500):
+        out.append(rnd.randrange(2 ** 32))
+    return [v for v in out if not in_blocks(v, UNSETTLED_BLOCKS)]
+
+
+@proof("C12", "compact-address.decode.sweep")
+class DecodeSweep:
+    """BOUNDED stand-in for the IPv4 part of "well-formed public peer address" (the library call ipaddress.ip_address on a
+    symbolic string is outside the engine): an address is accepted iff it lies in no reserved block of the IANA
+    special-purpose registry; inputs shorter than 6 bytes never decode"""
+    bounded_only = True
+    note = "borders and middle of every reserved block (13 blocks) + 1500 seeded random IPv4 addresses, ports 1023/1024, " \
+           "id lengths 47/48; compact strings of 0..5 bytes"
+    inputs = dict(compact=TBytes())
+
+    def run(compact):
+        peer = decode_tcp_peer_from_compact_address(compact)
+        return peer.address, peer.tcp_port, peer.node_id
+
+    def ensures_only_well_formed_public_addresses(compact, result):
+        ip = '.'.join(str(b) for b in compact[:4])
+        port = int.from_bytes(compact[4:6], 'big')
+        return (len(compact) == 54 and spec_is_public(ip) and 1024 <= port <= 65535
+                and result == (ip, port, compact[6:]))
+
+    def _should_fail(compact):
+        if len(compact) < 6:
+            return True
+        ip = '.'.join(str(b) for b in compact[:4])
+        return not (len(compact) == 54 and spec_is_public(ip) and 1024 <= int.from_bytes(compact[4:6], 'big') <= 65535)
+
+    # a reply shorter than an IPv4 address makes str.format raise IndexError (remark R2 in NOT_DECIDED): nothing is yielded either way
+    raises = {ValueError: _should_fail, IndexError: (lambda compact: len(compact) < 4)}
+
+    def samples():
+        for v in _sweep_ips():
+            for port, ln in ((1024, 48), (1023, 48), (3333, 47)):
+                yield dict(compact=v.to_bytes(4, 'big') + port.to_bytes(2, 'big') + bytes([9]) * ln)
+        for ln in range(6):
+            yield dict(compact=bytes([8]) * ln)
+
+
+# ================================================================================ 7. hostile findValue replies (bounded)
+
+def hostile_reply(shape, page):
+    tok = b'\x01' * 48
+    id48 = b'\x21' * 48
+    a = ADDRS
+    if shape == 'valid3':
+        return {b'token': tok, PAGE_KEY: 1, KEY: a[:3]}
+    if shape == 'port80':
+        return {b'token': tok, PAGE_KEY: 1, KEY: [a[0], a[1][:4] + (80).to_bytes(2, 'big') + a[1][6:], a[2]]}
+    if shape == 'port0':
+        return {b'token': tok, PAGE_KEY: 1, KEY: [a[1][:4] + b'\x00\x00' + a[1][6:]]}
+    if shape == 'private':
+        return {b'token': tok, PAGE_KEY: 1, KEY: [a[0], bytes([10, 0, 0, 1]) + a[1][4:]]}
+    if shape == 'loopback':
+        return {b'token': tok, PAGE_KEY: 1, KEY: [bytes([127, 0, 0, 1]) + a[1][4:], a[0]]}
+    if shape == 'multicast':
+        return {b'token': tok, PAGE_KEY: 1, KEY: [bytes([224, 0, 0, 1]) + a[1][4:], a[0]]}
+    if shape == 'short-id':
+        return {b'token': tok, PAGE_KEY: 1, KEY: [a[0], a[1][:-1]]}
+    if shape == 'long-id':
+        return {b'token': tok, PAGE_KEY: 1, KEY: [a[0], a[1] + b'x']}
+    if shape == 'empty-address':
+        return {b'token': tok, PAGE_KEY: 1, KEY: [a[0], b'']}
+    if shape == 'int-address':
+        return {b'token': tok, PAGE_KEY: 1, KEY: [a[0], 7]}
+    if shape == 'no-token':
+        return {PAGE_KEY: 1, KEY: a[:3]}
+    if shape == 'pages-garbage':
+        return {b'token': tok, PAGE_KEY: b'xx', KEY: a[:3]}
+    if shape == 'pages-list':
+        return {b'token': tok, PAGE_KEY: [1], KEY: a[:3]}
+    if shape == 'pages-negative':
+        return {b'token': tok, PAGE_KEY: -5, KEY: a[:8]}
+    if shape == 'same-full-page-forever':
+        return {b'token': tok, PAGE_KEY: 10 ** 9, KEY: a[:8]}
+    if shape == 'duplicate-in-page':
+        return {b'token': tok, PAGE_KEY: 3, KEY: a[:7] + [a[0]]}
+    if shape == 'bytes-not-list':
+        return {b'token': tok, PAGE_KEY: 1, KEY: a[0]}
+    if shape == 'dict-not-list':
+        return {b'token': tok, PAGE_KEY: 1, KEY: {a[0]: 1}}
+    if shape == 'contacts-arity':
+        return {b'token': tok, PAGE_KEY: 0, b'contacts': [(id48, b'1.2.3.4')]}
+    if shape == 'contacts-reserved':
+        return {b'token': tok, PAGE_KEY: 0, b'contacts': [(id48, b'10.0.0.1', 4444), (id48, b'8.8.8.8', 80)]}
+    if shape == 'contacts-str':
+        return {b'token': tok, PAGE_KEY: 0, b'contacts': [(id48, '8.8.8.8', 4444)]}
+    if shape == 'contacts-short-id':
+        return {b'token': tok, PAGE_KEY: 0, b'contacts': [(b'ab', b'8.8.8.8', 4444)]}
+    if shape == 'contacts-own-id':
+        return {b'token': tok, PAGE_KEY: 0, b'contacts': [(CLIENT_ID, b'8.8.8.8', 4444)]}
+    if shape == 'not-a-dict':
+        return [1, 2]
+    if shape == 'second-page-poisoned':
+        return {b'token': tok, PAGE_KEY: 5, KEY: a[:8]} if page == 0 else {b'token': tok, PAGE_KEY: 5, KEY: [a[8], a[9][:4] + b'\x00\x50' + a[9][6:]]}
+    raise KeyError(shape)
+
+
+HOSTILE_SHAPES = ['valid3', 'port80', 'port0', 'private', 'loopback', 'multicast', 'short-id', 'long-id', 'empty-address', 'int-address',
+                  'no-token', 'pages-garbage', 'pages-list', 'pages-negative', 'same-full-page-forever', 'duplicate-in-page',
+                  'bytes-not-list', 'dict-not-list', 'contacts-arity', 'contacts-reserved', 'contacts-str', 'contacts-short-id',
+                  'contacts-own-id', 'not-a-dict', 'second-page-poisoned']
+
+
+class HostileStub:
+    def __init__(self, shape):
+        self.shape = shape
+        self.requested = []
+
+    async def find_value(self, key, page=0):
+        self.requested.append(page)
+        return hostile_reply(self.shape, page)
+
+
+@proof("C12", "value-finder.hostile-replies")
+class HostileReplies:
+    """BOUNDED stand-in (the decoded peers end up in Python sets, which the engine cannot hold symbolically): whatever a
+    contacted node answers to findValue — malformed / reserved / privileged-port addresses, wrong types, missing fields,
+    garbage page counts, the same full page over and over, garbage contacts — the real value finder yields only well-formed
+    public peer addresses that the reply really contained, keeps the searching node out of its shortlist, and stops asking
+    that node after at most two requests"""
+    bounded_only = True
+    note = "25 reply shapes (see HOSTILE_SHAPES), each driven through _send_probe until the finder stops re-probing the node"
+    inputs = dict(shape=TStr())
+
+    async def run(shape):
+        stub = HostileStub(shape)
+        loop = Clock(1000)
+        pm = Verdicts([None] * 500)
+        finder = IterativeValueFinder(loop, ClientProtocol(loop, pm, CLIENT_ID, stub), KEY, -1, [])
+        probes = 0
+        errors = []
+        while SERVER_PEER not in finder.contacted and probes < 40:
+            finder.contacted.add(SERVER_PEER)
+            try:
+                await finder._send_probe(SERVER_PEER)
+            except (IndexError, TypeError, KeyError, AttributeError, ValueError) as e:     # ends the probe task; the done-callback
+                errors.append(type(e).__name__)                                            # of the task still runs the next round
+            probes += 1
+        got = []
+        while not finder.iteration_queue.empty():
+            batch = finder.iteration_queue.get_nowait()
+            got = got + [(p.address, p.tcp_port, p.node_id, p.udp_port) for p in batch]
+        return got, probes, errors, [p.node_id for p in finder.active]
+
+    def ensures_only_well_formed_public_addresses(shape, result):
+        offered = []
+        for page in (0, 1):
+            reply = hostile_reply(shape, page)
+            if isinstance(reply, dict) and isinstance(reply.get(KEY), (list, dict)):
+                offered = offered + [x for x in reply[KEY] if isinstance(x, bytes)]
+        ok = True
+        for (address, tcp_port, node_id, udp_port) in result[0]:
+            compact = ip_bytes(address) + tcp_port.to_bytes(2, 'big') + node_id
+            ok = ok and spec_is_public(address) and 1024 <= tcp_port <= 65535 and len(node_id) == 48 and compact in offered
+        return ok
+
+    def ensures_a_malformed_page_yields_nothing(shape, result):
+        malformed = shape in ('port80', 'port0', 'private', 'loopback', 'multicast', 'short-id', 'long-id', 'empty-address',
+                              'int-address', 'no-token', 'pages-garbage', 'pages-list', 'bytes-not-list', 'not-a-dict')
+        return implies(malformed, result[0] == [])
+
+    def ensures_stops_asking(result):
+        return result[1] <= 2
+
+    def ensures_searching_node_not_shortlisted(result):
+        return CLIENT_ID not in result[3]
+
+    def samples():
+        for shape in HOSTILE_SHAPES:
+            yield dict(shape=shape)
+
+
+# ================================================================================ 8. small simulated network (bounded)
+
+async def _until_done(coro, advance):
+    task = _asyncio.ensure_future(coro)
+    for _ in range(3000):
+        if task.done():
+            break
+        await advance(0.1)
+    if not task.done():
+        task.cancel()
+        return 'did not finish within 300 s of virtual time'
+    return task.result()
+
+
+async def _value_lookup(node, key):
+    found = []
+    finder = node.get_iterative_value_finder(key)
+    try:
+        async for peers in finder:
+            found.extend(peers)
+    finally:
+        await finder.aclose()
+    return found
+
+
+def _perturb(node, rnd, duplicate, delay):
+    """deliver every datagram after a random delay (reordering) and sometimes twice (duplication); never lose one"""
+    loop = _asyncio.get_event_loop()
+    deliver = node.protocol.datagram_received
+
+    def receive(data, addr):
+        first = rnd.random() * delay
+        loop.call_later(first, deliver, data, addr)
+        if duplicate and rnd.random() < 0.3:
+            loop.call_later(first + 0.35 + rnd.random() * delay, deliver, data, addr)
+    node.protocol.datagram_received = receive
+
+
+async def simulate_network(size, announcers, seed, duplicate, delay):
+    """`size` real Nodes (one bootstrap node, the others join through it in a seeded random order) on an in-memory datagram
+    network with virtual time; the last `announcers` nodes announce one blob; every node then looks the blob up right away,
+    20 h later and 25 h later"""
+    from lbry.dht.node import Node
+    from lbry.dht.protocol.distance import Distance
+    from tests import dht_mocks
+    loop = _asyncio.get_event_loop()
+    errors = []
+    loop.set_exception_handler(lambda _loop, context: errors.append(str(context.get('exception') or context.get('message'))))
+    rnd = _random.Random(seed)
+    result = {}
+    with dht_mocks.mock_network_loop(loop):
+        advance = dht_mocks.get_time_accelerator(loop)
+        jump = dht_mocks.get_time_accelerator(loop, instant_step=True)
+        boot = Node(loop, PeerManager(loop), constants.generate_id(1000 + seed), 4444, 4444, 3333, '1.2.3.4', is_bootstrap_node=True)
+        nodes = [boot]
+        try:
+            if delay:
+                _perturb(boot, rnd, duplicate, delay)
+            boot.start('1.2.3.4', [])
+            boot.protocol.ping_queue._default_delay = 0
+            order = list(range(1, size))
+            rnd.shuffle(order)
+            for i in order:
+                node = Node(loop, PeerManager(loop), constants.generate_id(seed * 100 + i), 4444, 4444, 3333 + i, '1.3.3.%d' % i)
+                if delay:
+                    _perturb(node, rnd, duplicate, delay)
+                node.start('1.3.3.%d' % i, [('1.2.3.4', 4444)])
+                nodes.append(node)
+                for _ in range(200):
+                    if node.joined.is_set():
+                        break
+                    await advance(1)
+                if not node.joined.is_set():
+                    return dict(joined=False)
+            for _ in range(400):                                # let the delayed pings (300 s) complete the routing tables
+                await advance(1)
+            result['joined'] = True
+            key = constants.generate_id(7777 + seed)
+            distance = Distance(key)
+            announcing = nodes[-announcers:]
+            stored_everywhere_close = True
+            for a in announcing:
+                stored_to = await _until_done(a.announce_blob(key.hex()), advance)
+                others = sorted([n.protocol.node_id for n in nodes if n is not a], key=distance)
+                if isinstance(stored_to, str) or not stored_to or not set(stored_to) <= set(others):
+                    stored_everywhere_close = False
+                elif len(stored_to) != min(K, size - 1):
+                    stored_everywhere_close = False         # stored on K nodes (on all others when there are at most K)
+                elif others[0] not in stored_to:
+                    stored_everywhere_close = False         # the closest node of all always stores it
+            result['stored'] = stored_everywhere_close
+
+            async def everybody_finds_the_announcers():
+                ok = True
+                total = 0
+                for n in nodes:
+                    found = await _until_done(_value_lookup(n, key), advance)
+                    if isinstance(found, str):
+                        return False, -1
+                    total += len(found)
+                    for a in announcing:
+                        if a is not n and not any(p.address == a.protocol.external_ip and p.tcp_port == a.protocol.peer_port
+                                                  and p.node_id == a.protocol.node_id for p in found):
+                            ok = False
+                return ok, total
+            result['hit_now'], _ = await everybody_finds_the_announcers()
+            await jump(20 * 3600)
+            result['hit_after_20h'], _ = await everybody_finds_the_announcers()
+            await jump(5 * 3600)
+            _, result['found_after_25h'] = await everybody_finds_the_announcers()
+        finally:
+            for n in nodes:
+                n.stop()
+    result['callback_errors'] = len(errors)
+    return result
+
+
+@proof("C12", "network.hit-and-expiry")
+class NetworkHitAndExpiry:
+    """BOUNDED stand-in for the network-wide hit guarantee (NOT decided deductively): real Nodes (node.py, protocol.py,
+    routing table, iterative finders, data store) on an in-memory loss-free datagram network with virtual time.  Every node
+    joins through the bootstrap node; the announced blob is stored on K other nodes including the closest one (on all others
+    when there are at most K of them); every other node's value lookup returns every announcer immediately and 20 hours
+    later, and nobody finds anything 25 hours later; all lookups and announcements finish."""
+    bounded_only = True
+    note = "8 networks of sizes 2, 2, 3, 5, 9, 12, 20, 40 with 1..12 announcers (more than one reply page on the storing nodes), " \
+           "seeded join orders, 400 s settling time; synchronous delivery, and random delay < 0.3 s with reordering and 30 % " \
+           "duplication for sizes 5 and 12"
+    inputs = dict(size=TInt(2, 40), announcers=TInt(1, 40), seed=TInt(0), duplicate=TBool(), delay=TInt(0, 1))
+
+    async def run(size, announcers, seed, duplicate, delay):
+        return await simulate_network(size, announcers, seed, duplicate, 0.3 * delay)
+
+    def ensures_everybody_joined_and_everything_finished(result):
+        return result.get('joined') is True and 'found_after_25h' in result
+
+    def ensures_stored_on_close_nodes(result):
+        return result['stored']
+
+    def ensures_every_other_node_finds_every_announcer(result):
+        return result['hit_now'] and result['hit_after_20h']
+
+    def ensures_nothing_found_after_expiry(result):
+        return result['found_after_25h'] == 0
+
+    def samples():
+        for size, announcers, seed, duplicate, delay in ((2, 1, 0, False, 0), (2, 2, 1, False, 0), (3, 3, 1, False, 0), (5, 2, 1, True, 1),
+                                                         (9, 9, 1, False, 0), (12, 1, 2, True, 1), (20, 12, 0, False, 0),
+                                                         (40, 3, 1, False, 0)):
+            yield dict(size=size, announcers=announcers, seed=seed, duplicate=duplicate, delay=delay)
+
+
+# ================================================================================ 9. blob announcer (one consumer pass)
+
+from lbry.dht.blob_announcer import BlobAnnouncer        # noqa: E402
+
+
+class FakeEvent:
+    def __init__(self):
+        self.flag = False
+
+    def set(self):
+        self.flag = True
+
+    def clear(self):
+        self.flag = False
+
+    def is_set(self):
+        return self.flag
+
+
+@model_for(_asyncio.Event)
+def _m_event(interp, st, args, kwargs):
+    yield from interp.instantiate(st, FakeEvent, [], {})
+
+
+class AnnouncingNode:
+    """node seen by the announcer: announce_blob returns the ids of the peers that stored the blob, or fails"""
+
+    def __init__(self, outcomes):
+        self.outcomes = outcomes
+        self.attempts = []
+
+    async def announce_blob(self, blob_hash):
+        self.attempts.append(blob_hash)
+        stored_to, fails = self.outcomes[blob_hash]
+        if fails:
+            raise OSError("network unreachable")
+        return stored_to
+
+
+BLOBS = ['aa' * 48, 'bb' * 48, 'cc' * 48]
+
+
+@proof("C12", "announcer.consumer")
+class AnnouncerConsumer:
+    """one consumer pass of the blob announcer over a queue of three blobs whose announcements are stored on an arbitrary
+    number of peers (any list length) or fail: every queued blob is attempted exactly once, a failure does not stop the
+    others, and a blob is recorded as announced (= not retried for 12 hours) only if its announcement was stored on at least
+    one peer — otherwise it would be unfindable although the node believes it is announced"""
+    inputs = dict(s0=TList(TBytes()), s1=TList(TBytes()), s2=TList(TBytes()), f0=TBool(), f1=TBool(), f2=TBool())
+    note = "0, 1, 4, 5, 8 storing peers x failing / not failing for each of the three blobs"
+
+    async def run(s0, s1, s2, f0, f1, f2):
+        node = AnnouncingNode({BLOBS[0]: (s0, f0), BLOBS[1]: (s1, f1), BLOBS[2]: (s2, f2)})
+        announcer = BlobAnnouncer(Clock(0), node, None)
+        announcer.announce_queue = [BLOBS[0], BLOBS[1], BLOBS[2]]
+        await announcer._run_consumer()
+        return sorted(node.attempts), [b in announcer.announced for b in BLOBS], announcer.announce_queue
+
+    def ensures_every_blob_attempted_once(result):
+        return result[0] == BLOBS and result[2] == []
+
+    def ensures_announced_only_if_stored_somewhere(s0, s1, s2, f0, f1, f2, result):
+        return (implies(result[1][0], len(s0) > 0 and not f0) and implies(result[1][1], len(s1) > 0 and not f1)
+                and implies(result[1][2], len(s2) > 0 and not f2))
+
+    def ensures_well_stored_blobs_are_not_retried(s0, s1, s2, f0, f1, f2, result):
+        # stored on a full set of K peers and no failure: recorded as announced
+        return (implies(len(s0) >= K and not f0, result[1][0]) and implies(len(s1) >= K and not f1, result[1][1])
+                and implies(len(s2) >= K and not f2, result[1][2]))
+
+    def samples():
+        import itertools
+        sizes = (0, 1, 4, 5, 8)
+        for a, b, c in itertools.product(sizes, repeat=3):
+            for fails in itertools.product((False, True), repeat=3):
+                yield dict(s0=[b'x'] * a, s1=[b'y'] * b, s2=[b'z'] * c, f0=fails[0], f1=fails[1], f2=fails[2])
+
+
+import logging as _logging
+_logging.getLogger('lbry.dht').setLevel(_logging.ERROR)          # the finders log every misbehaving reply of the hostile cases
+
+TRUSTED = [
+    "functools.lru_cache around make_kademlia_peer is transparent (the wrapped function is pure); functools.reduce is a left fold",
+    "random.Random(seed).shuffle(x) permutes x by a permutation that depends only on the seed and len(x) (CPython's own generator "
+    "computes it during symbolic execution); os.urandom(n) returns n arbitrary bytes",
+    "hashlib sha384 is a function of the bytes fed (uninterpreted, 48 bytes): distinct tokens are distinguished only through it",
+    "asyncio.Queue is an unbounded FIFO (modelled by FakeQueue); awaiting a coroutine runs it to completion",
+    "ipaddress.ip_address / lbry.utils.is_valid_public_ipv4 are executed by CPython on concrete addresses only",
+    "bencode/bdecode deliver the byte strings and integers of a reply unchanged (property C17); the harness hands the server's "
+    "reply dictionary to the client directly, converting bytearray to bytes as the wire does",
+]
+NOT_DECIDED = [
+    "hit guarantee across the network (join through a bootstrap node, routing tables, storage on the K closest nodes, every "
+    "other node's lookup finds the announcer) for all sizes 2..40, join orders and delivery orders: NOT proved; only the "
+    "bounded stand-in network.hit-and-expiry (8 simulated networks) and the per-node lemmas (expiry.*, store.token, paging)",
+    "termination of every iterative lookup within a bounded number of RPC time-outs under loss, silence and hostile replies: "
+    "NOT proved; only the per-round facts of search-round.bookkeeping, paging_is_bounded and the bounded hostile replies",
+    "behaviour under datagram loss, RPC time-out and failure accounting inside KademliaProtocol.send_request (asyncio.wait_for, "
+    "futures) — asyncio primitives are outside the engine",
+    "the link between find_value_contract and the real find_value for EVERY n: proved for n in {0,1,7,8,9,18} (27, 89 in the "
+    "thorough tier), run-time checked for all n <= 100 (find_value.contract.every-n, paging.every-n)",
+    "public-IPv4 classification for all 2**32 addresses: 44 fixed addresses deductively, block borders + 1500 random addresses "
+    "at run time; blocks whose status is unsettled (192.0.0.0/24, 192.88.99.0/24, 192.31.196.0/24, 192.52.193.0/24, "
+    "192.175.48.0/24) carry no verdict",
+    "remark R1 (outside the statement, not a finding): KademliaRPC.verify_token accepts ANY token while no secret rotation has "
+    "happened (old_token_secret is None) — refresh_token is never called by the node, so the token check is vacuous in "
+    "production; the refusal clause of store.token is therefore stated for a node whose secret has been rotated",
+    "remark R2: replies with wrong types (address shorter than 4 bytes, non-bytes address, missing token, non-list contacts) end "
+    "the probe task with IndexError / TypeError / KeyError / AttributeError instead of the ValueError path that reports the "
+    "peer as failing; nothing malformed is yielded and the search goes on (done-callback), so no clause of the statement breaks",
+    "BlobAnnouncer._announce (batching, 60 s rounds, storage updates) and Node.announce_blob / peer_search / join_network as "
+    "functions: asyncio.gather / sleep / Event are outside the engine; exercised only by network.hit-and-expiry",
+    "remark R3: a TCP port below 1024 or equal to 65535 cannot be announced/found although it is a valid port (store accepts "
+    "1..65534, the client accepts 1024..65535); one such stored announcement makes clients discard the storing node's whole page",
+]
+NOT_DECIDED.append(
+    "remark R4 (observation, unreachable today because refresh_token is never called): a store refused with 'Invalid token' is "
+    "answered by an error datagram, and sending an error datagram records an RPC failure for the requester "
+    "(KademliaProtocol._send); the storing node then regards the announcer as bad and get_peers_for_blob hides its "
+    "(successfully retried) announcement until the announcer answers one of the storing node's own requests")
+ASSUMPTIONS = [
+    "clock readings are integers (whole seconds) in the data-store and store proofs; in node-finder.replied-only they are "
+    "floats with 1/1024 s resolution and the final reading is fixed at 10**6 s (engine gap /tmp/engine_gaps/C12_3.py: no "
+    "float subtraction on a symbolic clock); time stamps are below 2**40 s",
+    "stores hold at most 3 earlier announcements per blob in the symbolic proofs (concrete list lengths, symbolic content)",
+    "paging: the looking-up node is not itself one of the announcers and the storing node does not hold the blob itself "
+    "(completed_blobs empty); the n announcers are fresh and not known bad; pages of the contract are taken in stored order",
+    "the peer manager is seen by the data store and the finders through its verdict per peer (True / None / False), quantified "
+    "over all combinations; the real PeerManager is used in node-finder.replied-only",
+]
